@@ -13,9 +13,11 @@ M = [
             });""",
      """            let positons = (0..2).fold(pawns, |pawns, _| pawns.shift(helper.turn_to_move().forward()))
                 & helper.board().vacancy();"""),
-    ("C01_pawn_west_captures_missing", "weechess-core/src/movegen.rs",
-     "                &[(Offset::EAST, Offset::WEST), (Offset::WEST, Offset::EAST)];",
-     "                &[(Offset::EAST, Offset::WEST), (Offset::EAST, Offset::WEST)];"),
+    # (dropping the west captures altogether makes the engine's build script fail on the opening book, i.e. the project
+    #  no longer builds; this variant only loses under-promotions)
+    ("C01_pawn_no_underpromotion", "weechess-core/src/movegen.rs",
+     "            &[Piece::Queen, Piece::Rook, Piece::Bishop, Piece::Knight];",
+     "            &[Piece::Queen, Piece::Knight, Piece::Queen, Piece::Knight];"),
     ("C02_ep_victim_not_removed", "weechess-core/src/state.rs",
      "                map[capture].set(capture_square, false);\n", "                let _ = capture_square;\n"),
     ("C02_fullmove_counts_after_white", "weechess-core/src/state.rs",
@@ -33,8 +35,10 @@ M = [
     ("C05_mate_sign_ignores_perspective", "weechess-engine/src/eval/mod.rs",
      "                return if state.turn_to_move() == perspective {\n                    -Evaluation::mate_in_ply(depth)",
      "                return if state.turn_to_move() == Color::White {\n                    -Evaluation::mate_in_ply(depth)"),
-    ("C12_san_capture_mark_ignored", "weechess-core/src/notation.rs",
-     "                query.set_is_capture(true);", "                query.set_is_capture(false);"),
+    # (ignoring the SAN capture mark breaks the opening-book build; this one only affects the coordinate writer)
+    ("C12_lan_promotion_letter_upper_case", "weechess-core/src/notation.rs",
+     "                write!(f, \"{}\", Into::<char>::into(promotion).to_ascii_lowercase())?;",
+     "                write!(f, \"{}\", Into::<char>::into(promotion))?;"),
     ("C08_side_to_move_not_hashed", "weechess-core/src/hasher.rs",
      "        hash ^= self.turn_hash[state.turn_to_move()];\n", "        let _ = &self.turn_hash;\n"),
     ("C17_repetition_ignored_at_depth_one", "weechess-engine/src/searcher.rs",
